@@ -71,6 +71,17 @@ def cases(tier: str, seed: int) -> List[Dict[str, Any]]:
     for name in ("silu_glu", "scaled_dot_product_attention"):
         for cfg in lattice(OPS[name], d, fixed={"dtype": "float64"}):
             out.append({"kind": "fixed", "op": name, "cfg": cfg, "seed": seed})
+    # call history: the same op/constraint first used in a low-precision dtype, then probed in float64
+    for name in CONSTRAINED_OPS:
+        op = OPS[name]
+        for c in [x for x in op.coords["constraint"] if x not in (None, "")][:3]:
+            for pre in ("bfloat16", "float16"):
+                out.append({"kind": "probe", "op": name, "cfg": dict({k: v[0] for k, v in op.coords.items()}, dtype="float64", constraint=None,
+                                                                   **({"fin": 5, "fout": 3} if "fin" in op.coords else {})),
+                            "constraint": c, "seed": seed, "pre_dtype": pre})
+    # residual ops: forward and backward weights of each path are one value (fixed constraint)
+    for tau in (1e-3, 0.25, 0.5, 1.0, 3.0, 1e3, None):
+        out.append({"kind": "residual", "tau": tau})
     for name in CONSTRAINED_OPS:
         for u in UNKNOWN:
             out.append({"kind": "unknown", "op": name, "name": u})
@@ -135,7 +146,7 @@ def run_case(case: Dict[str, Any]) -> Dict[str, Any]:
                 break
         return {"violations": viol[:4], "steps": n, "n_states": n, "outcome": "rules"}
 
-    op = OPS[case["op"]]
+    op = OPS[case["op"]] if "op" in case else None
     if kind == "unknown":
         cfg = dict(default_cfg(op), dtype="float64", constraint=case["name"])
         t = op.make(cfg, torch.Generator().manual_seed(0))
@@ -148,6 +159,31 @@ def run_case(case: Dict[str, Any]) -> Dict[str, Any]:
             viol.append({"key": f"{op.name}|unknown_name_wrong_error|{case['name']}", "msg": f"{type(e).__name__}: {e}"})
         return {"violations": viol, "outcome": "unknown"}
 
+    if kind == "residual":
+        import unit_scaling.functional as U
+
+        tau = case["tau"]
+        kw = {} if tau is None else {"tau": tau}
+        one, zero = torch.ones(3, dtype=torch.float64), torch.zeros(3, dtype=torch.float64)
+        wr = float(U.residual_add(one, zero, **kw)[0])
+        ws = float(U.residual_add(zero, one, **kw)[0])
+        x = torch.ones(3, dtype=torch.float64, requires_grad=True)
+        r, sk = U.residual_split(x, **kw)
+        br = float(torch.autograd.grad(r.sum(), x, retain_graph=True)[0][0])
+        bs = float(torch.autograd.grad(sk.sum(), x)[0][0])
+        if abs(wr - br) > 1e-12 or abs(ws - bs) > 1e-12:
+            viol.append({"key": "residual|forward_backward_weights_differ", "msg": f"tau={tau}: forward ({wr}, {ws}) backward ({br}, {bs})"})
+        g = torch.Generator().manual_seed(1)
+        W = torch.randn(3, 3, dtype=torch.float64, generator=g)
+        xin = torch.randn(2, 3, dtype=torch.float64, generator=g, requires_grad=True)
+        try:
+            ok = torch.autograd.gradcheck(lambda t: U.residual_apply(lambda r_: torch.tanh(r_ @ W), t, **kw), (xin,), eps=1e-6,
+                                          atol=1e-6, rtol=1e-5, raise_exception=False)
+        except Exception:  # noqa
+            ok = False
+        if not ok:
+            viol.append({"key": "residual|gradcheck_residual_apply", "msg": f"tau={tau}"})
+        return {"violations": viol, "steps": 3, "outcome": "residual", "nontrivial": tau not in (None, 1.0)}
     cfg = case["cfg"]
     if kind == "fixed":
         ident = op.name
@@ -167,6 +203,13 @@ def run_case(case: Dict[str, Any]) -> Dict[str, Any]:
 
     cname = case["constraint"]
     ident = f"{op.name}|constraint={cname or 'empty'}"
+    if case.get("pre_dtype"):
+        ident += f"|after_{case['pre_dtype']}_call"
+        try:
+            probe(op, dict(cfg, constraint=cname, dtype=case["pre_dtype"]), case["seed"], draws=1, gdraws=1)
+            probe(op, dict(cfg, constraint=None, dtype=case["pre_dtype"]), case["seed"], draws=1, gdraws=1)
+        except Exception:  # noqa - low precision unsupported for this op: no history step
+            pass
     r0 = probe(op, dict(cfg, constraint=None), case["seed"], draws=1, gdraws=1)
     r1 = probe(op, dict(cfg, constraint=cname), case["seed"], draws=1, gdraws=1)
     for r in (r0, r1):
